@@ -91,7 +91,7 @@ int main(int argc, char ** argv)
   int shard = atoi(argv[3]), nshards = atoi(argv[4]);
   Rng r(seed, 1010 + shard);
   std::map<std::string, Mismatch> mm;
-  long applications = 0, target_mode = 0, selection_mode = 0, nothing = 0, rect = 0, degenerate = 0, errors_raised = 0;
+  long chains = 0, applications = 0, target_mode = 0, selection_mode = 0, nothing = 0, rect = 0, degenerate = 0, errors_raised = 0;
   std::set<std::string> classes;
   std::string sample;
   size_t max_op_draws = 0;
@@ -283,6 +283,77 @@ int main(int argc, char ** argv)
           else if (end5 != nop || !events_bit_identical(E5, E2))
             fail("reconfigured-op|" + cls, fmt("an operation object that was configured differently before gives another event than a fresh object with the same configuration (ends at %zu vs %zu)", end5, nop), c, E2, E5, T);
         }
+        // several operations registered in one generator: they run one after the other, in registration order, on the same stream -
+        // the event equals the plain decay with the stand-alone operations applied in sequence (all MDL operations share one name())
+        if (ci % 3 == 0) {
+          std::vector<OpCfg> chain{c};
+          int extra = 1 + (int)r.below(2);
+          for (int k = 0; k < extra; k++) {
+            OpCfg d;
+            static const int sp2[] = {0, 1, 3, 2, 47};
+            d.species = sp2[r.below(5)];
+            if (r.below(2) == 0 && !E0.get_particles().empty()) d.species = (int)E0.get_particles()[r.below(E0.get_particles().size())].get_code();
+            d.rank = (int)r.below(3) - 1;
+            d.phi = -M_PI + 2 * M_PI * r.uniform();
+            d.theta = std::acos(1 - 2 * r.uniform());
+            d.ap1 = 0.05 + 1.5 * r.uniform();
+            d.ap2 = r.below(4) == 0 ? 0.3 + r.uniform() : -1;
+            d.err_missing = false;
+            d.axis_form = r.below(2) == 0;
+            d.axis_scale = 1.0;
+            chain.push_back(d);
+          }
+          std::unique_ptr<decay0_generator> g(new decay0_generator);
+          if (gs.kind == 'B') {
+            g->set_decay_category(decay0_generator::DECAY_CATEGORY_BACKGROUND);
+            g->set_decay_isotope(gs.name);
+          } else {
+            g->set_decay_category(decay0_generator::DECAY_CATEGORY_DBD);
+            g->set_decay_isotope(gs.name);
+            g->set_decay_dbd_level(gs.level);
+            g->set_decay_dbd_mode((bxdecay0::dbd_mode_type)gs.mode);
+          }
+          for (auto & d : chain) {
+            auto op = std::make_shared<mdl_op>();
+            configure(*op, d);
+            g->add_operation(op);
+          }
+          Tape ti(seed, 3);
+          g->initialize(ti);
+          bxdecay0::event Ec, Es = E0;
+          std::string excc, excs;
+          size_t endc = 0, ends = 0;
+          T.rewind();
+          try {
+            g->shoot(T, Ec);
+            endc = T.pos;
+          } catch (std::exception & x) {
+            excc = x.what();
+          }
+          T.seek(n0);
+          try {
+            for (auto & d : chain) {
+              mdl_op o;
+              configure(o, d);
+              o(T, Es);
+            }
+            ends = T.pos;
+          } catch (std::exception & x) {
+            excs = x.what();
+          }
+          chains++;
+          std::string all;
+          for (auto & d : chain) all += " {" + d.str() + "}";
+          if (excc.empty() != excs.empty())
+            fail("operation-chain|exception", fmt("%zu operations registered in one generator: generator %s, stand-alone sequence %s;%s", chain.size(), excc.empty() ? "returns" : ("raises " + excc).c_str(),
+                                                  excs.empty() ? "returns" : ("raises " + excs).c_str(), all.c_str()),
+                 c, Es, Ec, T);
+          else if (excc.empty() && (endc != ends || !events_bit_identical(Ec, Es)))
+            fail("operation-chain|" + cls, fmt("%zu operations registered in one generator do not give the plain decay followed by the stand-alone operations in registration order "
+                                                "(generator ends at deviate %zu, sequence at %zu; events %s);%s",
+                                                chain.size(), endc, ends, events_bit_identical(Ec, Es) ? "equal" : "differ", all.c_str()),
+                 c, Es, Ec, T);
+        }
         if (c.rank >= 0 && op2.get_last_target_index() != target)
           fail("last-target-index|" + cls, fmt("get_last_target_index() = %d, the rank-%d particle of the filtered species is #%d", op2.get_last_target_index(), c.rank, target), c, E0, Eop, T);
         // degree-based entry point == radian-based setters with converted values
@@ -434,7 +505,8 @@ int main(int argc, char ** argv)
       }
     }
   }
-  fprintf(OUT, "{\"applications\":%ld,\"target_mode\":%ld,\"selection_mode\":%ld,\"nothing_selected\":%ld,\"rectangular\":%ld,\"degenerate\":%ld,\"errors_raised\":%ld,"
+  fprintf(OUT, "{\"operation_chains\":%ld,", chains);
+  fprintf(OUT, "\"applications\":%ld,\"target_mode\":%ld,\"selection_mode\":%ld,\"nothing_selected\":%ld,\"rectangular\":%ld,\"degenerate\":%ld,\"errors_raised\":%ld,"
                "\"classes\":%zu,\"max_op_draws\":%zu,\"sample\":%s,",
           applications, target_mode, selection_mode, nothing, rect, degenerate, errors_raised, classes.size(), max_op_draws, sample.empty() ? "null" : sample.c_str());
   emit_mismatches(OUT, "mismatches", mm);
